@@ -392,6 +392,54 @@ pub fn s_small(levels: &[Option<u8>], thorough: bool) -> Space {
     }
 }
 
+/// S_pair_ctx: every byte pair and every single byte inside longer strings (all options automatic): the pair
+/// in the middle and at the end of a 20-byte counter string, every byte value at every position of a 24-byte
+/// string. Catches content handling that looks at neighbouring bytes (line-end normalisation, UTF-8 awareness,
+/// escape processing) which neither per-group enumeration nor whole inputs of <= 2 bytes reach.
+pub fn s_pair_ctx(thorough: bool) -> Space {
+    let mut cases = vec![];
+    let auto = Opts { mode: None, ecl: None, version: None, mask: None };
+    let base = content(Family::Ctr, 2, 20);
+    let positions: &[usize] = if thorough { &[0, 7, 18] } else { &[7, 18] };
+    for &p in positions {
+        for a in 0..=255u8 {
+            for b in 0..=255u8 {
+                let mut s = base.clone();
+                s[p] = a;
+                s[p + 1] = b;
+                cases.push(Case::new(s, auto));
+            }
+        }
+    }
+    let base = content(Family::Ctr, 2, 24);
+    for p in 0..24 {
+        for a in 0..=255u8 {
+            let mut s = base.clone();
+            s[p] = a;
+            cases.push(Case::new(s, auto));
+        }
+    }
+    // every valid 3-byte UTF-8 lead/continuation combination class: all (lead, c1) pairs followed by a fixed continuation
+    if thorough {
+        for a in 0xC0..=0xFFu8 {
+            for b in 0x80..=0xBFu8 {
+                for c in [0x80u8, 0xBF] {
+                    let mut s = b"ab".to_vec();
+                    s.extend_from_slice(&[a, b, c]);
+                    s.extend_from_slice(b"yz");
+                    cases.push(Case::new(s, auto));
+                }
+            }
+        }
+    }
+    Space {
+        name: "S_pair_ctx".into(),
+        describe: format!("every byte pair (65536) at positions {:?} of a 20-byte counter string, every byte value at every position of a 24-byte string{}; all options automatic", positions, if thorough { ", all UTF-8 lead x continuation pairs inside text" } else { "" }),
+        cases,
+        exhaustive: true,
+    }
+}
+
 /// S_mask: 160 (v, level) x {ctr, lo} at byte capacity; the caller builds all 8 masks per case
 pub fn s_mask_bases() -> Vec<(usize, usize, Family, Vec<u8>)> {
     let mut out = vec![];
